@@ -32,14 +32,14 @@ def build_plane(ps):
     from polliwog import Plane
     c = ps["ctor"]
     if c == "init":
-        return Plane(np.array(ps["ref"], dtype=np.float64), np.array(ps["n"], dtype=np.float64))
+        return Plane(shcopy(np.array(ps["ref"], dtype=np.float64)), shcopy(np.array(ps["n"], dtype=np.float64)))
     if c == "pn":
-        return Plane.from_point_and_normal(np.array(ps["ref"], dtype=np.float64), np.array(ps["n"], dtype=np.float64))
+        return Plane.from_point_and_normal(shcopy(np.array(ps["ref"], dtype=np.float64)), shcopy(np.array(ps["n"], dtype=np.float64)))
     if c == "points":
-        return Plane.from_points(*[np.array(p, dtype=np.float64) for p in ps["pts"]])
+        return Plane.from_points(*[shcopy(np.array(p, dtype=np.float64)) for p in ps["pts"]])
     if c == "pv":
-        return Plane.from_points_and_vector(np.array(ps["p1"], dtype=np.float64), np.array(ps["p2"], dtype=np.float64),
-                                            np.array(ps["v"], dtype=np.float64))
+        return Plane.from_points_and_vector(shcopy(np.array(ps["p1"], dtype=np.float64)), shcopy(np.array(ps["p2"], dtype=np.float64)),
+                                            shcopy(np.array(ps["v"], dtype=np.float64)))
     if c in ("xy", "xz", "yz"):
         return getattr(Plane, c)
     raise ValueError(c)
